@@ -486,6 +486,24 @@ type c13aAmount struct {
 	neg       bool
 	ip, fp    string // integer digits (no leading zeros unless "0"), fraction digits (may be "")
 	thousands bool   // render with ' separators
+	raw       string // forms decimal.NewFromString also accepts ("+5", ".5", "5.", "1e2", "007"); then
+	rawValue  string // ... the plain decimal it denotes
+}
+
+var c13aExoticForms = [][2]string{{"+5", "5"}, {".5", "0.5"}, {"5.", "5"}, {"1e2", "100"}, {"1E-2", "0.01"},
+	{"12.5e1", "125"}, {"007", "7"}, {"0.0", "0"}, {"+.25", "0.25"}, {"3e0", "3"}, {"1.50e+1", "15"}}
+
+func c13aExotic(r *rng) c13aAmount {
+	f := pick(r, c13aExoticForms)
+	return c13aAmount{raw: f[0], rawValue: f[1], ip: f[1]}
+}
+
+// as written in formats without thousands separators
+func (a c13aAmount) written() string {
+	if a.raw != "" {
+		return a.raw
+	}
+	return a.value(false)
 }
 
 func c13aGenAmount(r *rng, allowThousands bool) c13aAmount {
@@ -521,6 +539,9 @@ func c13aGenAmount(r *rng, allowThousands bool) c13aAmount {
 
 // unsigned rendering as the bank writes it
 func (a c13aAmount) text() string {
+	if a.raw != "" {
+		return a.raw
+	}
 	ip := a.ip
 	if a.thousands {
 		var b []byte
@@ -543,6 +564,9 @@ func (a c13aAmount) value(negate bool) string {
 	s := a.ip
 	if a.fp != "" {
 		s += "." + a.fp
+	}
+	if a.rawValue != "" {
+		s = a.rawValue
 	}
 	if negate {
 		return "-" + s
@@ -683,7 +707,8 @@ func c13aRowCount(r *rng) int {
 
 // one row of a well-formed statement is damaged; what=date|datefmt|amount|cols|cur, or the
 // account flag is damaged (acct)
-var c13aBadDates = []string{"31.02.2020", "00.01.2020", "15.13.2020", "29.02.2021", "32.01.2020", "31.04.2020"}
+var c13aBadDates = []string{"31.02.2020", "00.01.2020", "15.13.2020", "29.02.2021", "32.01.2020", "31.04.2020",
+	"01·02·2020", "x01.02.2020", "01.02.2020x", "01.02.20201", "29.02.1900"}
 var c13aBadDateFmts = []string{"2020-02-01", "1.2.2020", "", "aa.bb.cccc", "01/02/2020", "01.02.20", "01.02.2020 "}
 var c13aBadAmounts = []string{"12,34", "abc", "1.2.3", "12.50-", "--5", "1 000.00", "CHF", "1e", "."}
 var c13aBadCurs = []string{"C-F", "", "CH F", "€", "CHF."}
@@ -706,8 +731,14 @@ func c13aGenSwisscard2(r *rng, mal string) c13aCase {
 	var b strings.Builder
 	b.WriteString("Transaktionsdatum,Beschreibung,Händler,Kartennummer,Währung,Betrag,Fremdwährung,Betrag in Fremdwährung,Debit/Kredit,Status,Händlerkategorie,Registrierte Kategorie\n")
 	for i, row := range rows {
+		if !row.credit && r.chance(5) {
+			row.amt = c13aExotic(r)
+		}
 		date := c13aDMY(row.date)
 		amount := row.amt.value(row.credit) // a refund is written with a minus sign
+		if row.amt.raw != "" {
+			amount = row.amt.raw
+		}
 		cur := row.cur
 		dk := "Belastung"
 		if row.credit {
@@ -907,6 +938,9 @@ func c13aGenCumulus(r *rng, mal string) c13aCase {
 	}
 	b.WriteString("Einkaufs-Datum,Verbucht am,Beschreibung,Gutschrift CHF,Belastung CHF\n")
 	for i, row := range rows {
+		if r.chance(5) {
+			row.amt = c13aExotic(r)
+		}
 		g, l := two(row.amt, row.credit)
 		fields := []string{c13aDMY(row.date), c13aDMY(row.date2), row.texts[0], g, l}
 		if fields[2] == "" {
@@ -1178,11 +1212,14 @@ func c13aGenSupercard(r *rng, mal string) c13aCase {
 				row.texts[k] = pick(r, []string{"Ärztliche Dienstleistungen", "Café Zürich", "Elektronikgeschäfte, Radio/TV", "Tankstelle; Shop", "×÷ÿ§"})
 			}
 		}
-		bel, gut := row.amt.value(false), " "
-		if row.credit {
-			bel, gut = " ", row.amt.value(false)
+		if r.chance(5) {
+			row.amt = c13aExotic(r)
 		}
-		fields := []string{"1425 0000 0000", "1111 2222 3333 4444", "OWNER", c13aDMY(row.date), row.texts[0], row.texts[1], row.amt.value(false),
+		bel, gut := row.amt.written(), " "
+		if row.credit {
+			bel, gut = " ", row.amt.written()
+		}
+		fields := []string{"1425 0000 0000", "1111 2222 3333 4444", "OWNER", c13aDMY(row.date), row.texts[0], row.texts[1], row.amt.written(),
 			row.cur, " ", row.cur, bel, gut, c13aDMY(row.date2)}
 		if fields[4] == "" {
 			fields[4] = "X"
@@ -1210,9 +1247,12 @@ func c13aGenSupercard(r *rng, mal string) c13aCase {
 					fields[9] = "C$F"
 				}
 			case "cols":
-				if r.chance(50) {
+				switch r.intn(3) {
+				case 0:
 					fields = fields[:12]
-				} else {
+				case 1:
+					fields = fields[:11] // the importer ignores every 11-field record
+				default:
 					fields = append(fields, "extra")
 				}
 			}
